@@ -144,7 +144,7 @@ BByNumStructFailing(c, o) ==
     LET cnt == BCounts(c)  nb == Len(cnt)
     IN IF Len(o.hist) # nb THEN {"nperbin_number_of_bins"}
        ELSE (IF \A i \in 1..nb : o.hist[i] = cnt[i] THEN {} ELSE {"nperbin_occupancy"}) \cup
-            (IF ~o.hasrev THEN {"rev_missing"}
+            (IF ~o.hasrev THEN (IF o.wantrev THEN {"rev_missing"} ELSE {})
              ELSE IF ~BPtrOK(nb, o) THEN {"nperbin_rev_pointers"}
              ELSE LET all == BConcat(nb, o)
                       membersOK == /\ \A k \in DOMAIN all : all[k] \in Limited(c)
@@ -162,7 +162,7 @@ BByNumStructFailing(c, o) ==
 \* the statistics are judged once the bins themselves are in order
 BByNumFailing(c, o) ==
     LET s == BByNumStructFailing(c, o)
-    IN IF s # {} THEN s ELSE BStatsFailing(c, o, Len(BCounts(c)))
+    IN IF s # {} \/ ~o.hasrev THEN s ELSE BStatsFailing(c, o, Len(BCounts(c)))
 
 \* ---- the whole observation ---------------------------------------------------------------------
 BFailing(c, o) ==
@@ -179,6 +179,87 @@ BFailing(c, o) ==
 BAccept(c, o) == BFailing(c, o) = {}
 
 \* =====================================================================================
+\* Implementation-shaped pieces (Binner._hist_by_num, _merge_last, calc_stats)
+\* =====================================================================================
+\* the histogram _hist_by_num takes: data = 0..n-1 (positions in the sorted, limited index),
+\* bin size nperbin, minimum 0 - run through the pass of Hist.tla
+BIndexCase(c) == [x |-> [k \in 1..BLimN(c) |-> k - 1], mode |-> "binsize", b |-> c.b,
+                  hasmin |-> TRUE, min |-> 0, hasmax |-> FALSE, max |-> 0]
+
+RECURSIVE BRunPass(_, _)
+BRunPass(cc, st) == IF st.i <= Len(SortedLimited(cc)) THEN BRunPass(cc, PassStep(cc, st)) ELSE PassFill(cc, st, TRUE)
+BPassResult(cc)  == BRunPass(cc, PassInit(cc))
+
+\* "convert the indices in rev to the unlimited, unsorted frame", low/high = first/last member
+BNumConvert(c, p) ==
+    LET ws   == SortedLimited(c)
+        nb   == Len(p.hist)
+        rev2 == [k \in DOMAIN p.rev |-> IF k <= nb + 1 THEN p.rev[k] ELSE ws[p.rev[k] + 1] - 1]
+    IN [hist |-> p.hist, rev |-> rev2,
+        low  |-> [i \in 1..nb |-> IF p.rev[i] # p.rev[i + 1] THEN c.x[rev2[p.rev[i] + 1] + 1] ELSE 0],
+        high |-> [i \in 1..nb |-> IF p.rev[i] # p.rev[i + 1] THEN c.x[rev2[p.rev[i + 1]] + 1] ELSE 0]]
+
+\* _merge_last (array assignments as in the code); variant "nodec" forgets `r2[0:nbin] -= 1`
+BNumMerge(p, variant) ==
+    LET nb == Len(p.hist)
+    IN IF nb < 2 THEN p
+       ELSE [hist |-> [i \in 1..(nb - 1) |-> IF i < nb - 1 THEN p.hist[i] ELSE p.hist[nb - 1] + p.hist[nb]],
+             low  |-> [i \in 1..(nb - 1) |-> p.low[i]],
+             high |-> [i \in 1..(nb - 1) |-> IF i < nb - 1 THEN p.high[i] ELSE p.high[nb]],
+             rev  |-> [k \in 1..(Len(p.rev) - 1) |->
+                          LET v == IF k <= nb - 1 THEN p.rev[k] ELSE IF k = nb THEN p.rev[nb + 1] ELSE p.rev[k + 1]
+                          IN IF k <= nb /\ variant # "nodec" THEN v - 1 ELSE v]]
+BNumNeedsMerge(c, p) == p.hist[Len(p.hist)] # c.b /\ c.merge
+
+\* calc_stats, one bin with members s (sequence of 1-based positions, in slice order)
+\*   one member : mean = median = the datum, deviation 0, every error := the mean
+\*                (whist = the weight; the pinned code had datum * weight: fixedWhist = FALSE)
+\*   otherwise  : numpy mean / std (divisor n) / median, err = std/sqrt(n), wmom(...)
+BMechPlain(v, s) ==
+    LET P == VRange(s)  n == Len(s)
+    IN IF n = 0 THEN [mean |-> BSent, var |-> BSent, err2 |-> BSent, med |-> BSent]
+       ELSE IF n = 1 THEN [mean |-> BRat(RInt(v[s[1]])), var |-> BRat(BZero), err2 |-> BRat(RSq(RInt(v[s[1]]))),
+                           med |-> BRat(RInt(v[s[1]]))]
+       ELSE [mean |-> BRat(SMean(v, SOnes(Len(v)), P)), var |-> BRat(BVarPop(v, P)),
+             err2 |-> BRat(RDiv(BVarPop(v, P), RInt(n))), med |-> BRat(SMedian(v, P))]
+BMechWt(v, w, s) ==
+    LET P == VRange(s)  n == Len(s)
+    IN IF n = 0 THEN [mean |-> BSent, var |-> BSent, erri |-> BSent, err2 |-> BSent]
+       ELSE IF n = 1 THEN [mean |-> BRat(RInt(v[s[1]])), var |-> BRat(BZero), erri |-> BRat(RSq(RInt(v[s[1]]))),
+                           err2 |-> BRat(RSq(RInt(v[s[1]])))]
+       ELSE [mean |-> BRat(SMean(v, w, P)), var |-> BRat(SVarAbout(v, w, P, SMean(v, w, P))),
+             erri |-> BRat(SErr2Inv(w, P)), err2 |-> BRat(SErr2Calc(v, w, P, SMean(v, w, P)))]
+BMechWhist(c, s, fixedWhist) ==
+    IF Len(s) = 0 THEN BRat(BZero)
+    ELSE IF Len(s) = 1 THEN BRat(RInt(IF fixedWhist THEN c.w[s[1]] ELSE c.x[s[1]] * c.w[s[1]]))
+    ELSE BRat(RInt(SSumW(c.w, VRange(s))))
+
+\* the statistics loop: one record per bin (for a call with y and weights)
+BMechBins(c, p, fixedWhist) ==
+    LET o0 == [rev |-> p.rev]
+    IN [i \in 1..Len(p.hist) |->
+          LET s == Slice(o0, i - 1)
+          IN [px |-> BMechPlain(c.x, s), py |-> BMechPlain(c.y, s), wx |-> BMechWt(c.x, c.w, s), wy |-> BMechWt(c.y, c.w, s),
+              wh |-> BMechWhist(c, s, fixedWhist)]]
+
+\* the result dictionary the code builds from (hist, rev[, low, high]) and the per-bin records
+BMechObs(c, p, bins) ==
+    LET nb == Len(p.hist)
+        byNum == c.mode = "nperbin"
+    IN [err |-> "none", hasy |-> TRUE, hasw |-> TRUE, wantrev |-> TRUE, hist |-> p.hist, hasrev |-> TRUE, rev |-> p.rev,
+        low    |-> IF byNum THEN [i \in 1..nb |-> BRat(RInt(p.low[i]))] ELSE [i \in 1..nb |-> BRat(BLow(c, i - 1))],
+        high   |-> IF byNum THEN [i \in 1..nb |-> BRat(RInt(p.high[i]))] ELSE [i \in 1..nb |-> BRat(BLow(c, i))],
+        center |-> IF byNum THEN <<>> ELSE [i \in 1..nb |-> BRat(RAdd(BLow(c, i - 1), RDiv(BBinSize(c), RInt(2))))],
+        mean |-> [i \in 1..nb |-> bins[i].px.mean], var |-> [i \in 1..nb |-> bins[i].px.var],
+        err2 |-> [i \in 1..nb |-> bins[i].px.err2], med |-> [i \in 1..nb |-> bins[i].px.med],
+        ymean |-> [i \in 1..nb |-> bins[i].py.mean], yvar |-> [i \in 1..nb |-> bins[i].py.var],
+        yerr2 |-> [i \in 1..nb |-> bins[i].py.err2], ymed |-> [i \in 1..nb |-> bins[i].py.med],
+        whist |-> [i \in 1..nb |-> bins[i].wh],
+        wmean |-> [i \in 1..nb |-> bins[i].wx.mean], wvar |-> [i \in 1..nb |-> bins[i].wx.var],
+        werri |-> [i \in 1..nb |-> bins[i].wx.erri], werr2 |-> [i \in 1..nb |-> bins[i].wx.err2],
+        wymean |-> [i \in 1..nb |-> bins[i].wy.mean], wyvar |-> [i \in 1..nb |-> bins[i].wy.var],
+        wyerri |-> [i \in 1..nb |-> bins[i].wy.erri], wyerr2 |-> [i \in 1..nb |-> bins[i].wy.err2]]
+=====================================================================================
 \* Implementation-shaped pieces (Binner._hist_by_num, _merge_last, calc_stats)
 \* =====================================================================================
 \* the histogram _hist_by_num takes: data = 0..n-1 (positions in the sorted, limited index),
